@@ -28,13 +28,15 @@ func (c *char) initTraces() {
 			Amount: 15.0,
 		})
 	}
-	if c.info.Traces["103"] {
-		modifier.Register(A6, modifier.Config{
-			Listeners: modifier.Listeners{
-				OnTriggerDeath: A6Buff,
-			},
-		})
-	}
+}
+
+// registered once per process (registering from a character instance panics on the second instance)
+func init() {
+	modifier.Register(A6, modifier.Config{
+		Listeners: modifier.Listeners{
+			OnTriggerDeath: A6Buff,
+		},
+	})
 }
 
 func A6Buff(mod *modifier.Instance, target key.TargetID) {
